@@ -60,7 +60,11 @@ def run(cx):
     cx.guard(_r12e, cx, mk_line)
     cx.guard(_r12a, cx, gen)
     cx.guard(_r12f, cx, repo, detect)
-    cx.guard(_r12g, cx, gen)
+    from sa.inline import inlined as _inl
+    gen_i, used_g = _inl(repo.modules[REL], gen)
+    if used_g:
+        cx.note(f"R12g: gen_ch_lines analysed with {used_g} expanded in place")
+    cx.guard(_r12g, cx, gen_i)
 
 
 # ----------------------------------------------------------------------------------------------- contracts
